@@ -249,6 +249,27 @@ where
             if api {
                 ro.api_max = Some(scores.max());
             }
+        } else {
+            // read a partially scored matrix back through every accessor (memory monitors: each reference handed
+            // out must point into the matrix)
+            let mut acc = 0u32;
+            for x in scores.iter() {
+                acc = acc.wrapping_add(x.to_bits());
+            }
+            for x in scores.unstripe().iter() {
+                acc = acc.wrapping_add(x.to_bits());
+            }
+            ro.iter_len = scores.iter().len();
+            // ... and the same block scored into a FRESH buffer (no spare capacity left behind by a larger scan)
+            let mut fresh = StripedScores::<f32, C>::empty();
+            ps.score_rows_into(pssm, &striped, a..b, &mut fresh);
+            for x in fresh.iter() {
+                acc = acc.wrapping_add(x.to_bits());
+            }
+            for x in fresh.unstripe().iter() {
+                acc = acc.wrapping_add(x.to_bits());
+            }
+            std::hint::black_box(acc);
         }
         out.ranges.push(ro);
     }
@@ -368,6 +389,25 @@ where
             if rows > 0 {
                 ro.indexed = (0..valid.min(rows * C::USIZE)).map(|p| scores[p]).collect();
             }
+        } else {
+            let mut acc = 0u32;
+            for x in scores.iter() {
+                acc = acc.wrapping_add(x.to_bits());
+            }
+            for x in scores.unstripe().iter() {
+                acc = acc.wrapping_add(x.to_bits());
+            }
+            ro.iter_len = scores.iter().len();
+            // ... and the same block scored into a FRESH buffer (no spare capacity left behind by a larger scan)
+            let mut fresh = StripedScores::<f32, C>::empty();
+            ps.score_rows_into(pssm, &striped, a..b, &mut fresh);
+            for x in fresh.iter() {
+                acc = acc.wrapping_add(x.to_bits());
+            }
+            for x in fresh.unstripe().iter() {
+                acc = acc.wrapping_add(x.to_bits());
+            }
+            std::hint::black_box(acc);
         }
         out.ranges.push(ro);
     }
